@@ -19,7 +19,7 @@ FUZZ = {"thorough": 2500}  # executions per atheris process (16 processes), afte
 RULE = (
     "Hypothesis draws an oil (as C12), salinity 0..25, a gas pseudocritical point, a dtype from "
     "{float64, float32, int64, int32}, a length 0..40 and a layout (contiguous, step 2, step 3, reversed view of a "
-    "larger base array); elements are fractions of [15, 2.5 p_b] mixed with p_b itself (exact in float64), its "
+    "larger base array, or a pandas Series with non-default row labels); elements are fractions of [15, 2.5 p_b] mixed with p_b itself (exact in float64), its "
     "float neighbours and its integer neighbours. Every array-accepting correlation (oil FVF, solution GOR, "
     "undersaturated compressibility, oil density, the five water correlations, the Fluid methods) is called "
     "once with the array and once per element with a Python float. Non-trivial = length >= 2 with values on "
@@ -49,7 +49,7 @@ def strategy_(draw):
     oil = draw(gens.oil_params())
     dtype = draw(st.sampled_from(DTYPES + ["float64", "int64"]))
     n = draw(st.one_of(st.sampled_from([0, 1, 2]), st.integers(0, 40)))
-    layout = draw(st.sampled_from(["contiguous", "contiguous", "step2", "step3", "reversed"]))
+    layout = draw(st.sampled_from(["contiguous", "contiguous", "step2", "step3", "reversed", "series"]))
     elems = [
         draw(
             st.one_of(
@@ -120,6 +120,12 @@ def check_case(case) -> Result:
         return res
     base, arr = _build_array(case, pb)
     n = arr.shape[0]
+    given = arr
+    if case["layout"] == "series" and n > 0:
+        import pandas as pd
+
+        # a DataFrame column: same values, row labels that are not 0..n-1
+        given = pd.Series(arr, index=np.arange(n) * 2 + 7)
     fl = Fluid(T, api, sg, gor, salinity=sal)
     funcs = [
         ("oil.b_o_Standing", lambda p: O.b_o_Standing(T, p, api, sg, gor)),
@@ -153,7 +159,7 @@ def check_case(case) -> Result:
         name, f_arr = entry[0], entry[1]
         f_sc = entry[2] if len(entry) == 3 else entry[1]
         try:
-            out = f_arr(arr)
+            out = f_arr(given)
         except Exception as e:  # noqa: BLE001
             res.bad("C11/array-call-raises", f"{name}(array dtype={arr.dtype} n={n} layout={case['layout']}) raised {type(e).__name__}: {e}")
             continue
